@@ -97,6 +97,7 @@ type agg struct {
 	opts   *WorkerOpts
 	start  time.Time
 	nviol  int
+	horizon float64
 }
 
 func newAgg(o *WorkerOpts) *agg {
